@@ -297,10 +297,11 @@ def tsOptionWrites (declared : List Str) (prop : Str) : List Str :=
   declared.filter fun h => headerNameToPropertyName h == prop
 
 /-- header names the Go client's typed option `With<Svc>[Call]<F>` writes, for `F` the function
-name part (`clientgen.headerNameToFuncName`). (When two declared headers share `F` the emitted
-package does not compile: C13 `header_helper_redeclared`.) -/
+name part (`clientgen.headerNameToFuncName`): the helper is emitted once, for the FIRST declared
+header with that function name (since /repo 50d5457; before, two declared headers sharing `F`
+made the emitted package not compile: C13 `header_helper_redeclared`). -/
 def goHelperWrites (declared : List Str) (fn : Str) : List Str :=
-  declared.filter fun h => headerNameToFuncName h == fn
+  (declared.filter fun h => headerNameToFuncName h == fn).take 1
 
 /-- JavaScript object assignment `o[k] = v` on an insertion-ordered record. -/
 def recSet (k v : Str) : List (Str × Str) → List (Str × Str)
